@@ -160,6 +160,13 @@ def record_sets(
     extra_c = draw(st.integers(0, max_syn))
     extra_u = draw(st.integers(0, max_syn))
     cp = draw(curie_pool(n, n + extra_c, forbidden=forbidden, allow_empty=allow_empty_prefix, unicode_arm=unicode_arm))
+    if not prefix_no_delimiter and cp:
+        # deliberately put the delimiter INSIDE some prefixes (e.g. APOLLO_SV with delimiter _)
+        for k in range(len(cp)):
+            if draw(st.integers(0, 3)) == 0:
+                cand = cp[k][:1] + delimiter + cp[k][1:] if draw(st.booleans()) else cp[k] + delimiter + "x"
+                if cand not in cp:
+                    cp[k] = cand
     if url_shaped:
         up = draw(url_pool(n, n + extra_u))
     else:
@@ -279,13 +286,13 @@ def curie_probes(draw, records, delimiter: str, *, extra: int = 8):
 
 
 @st.composite
-def scalar_cases(draw, tier="quick", *, prefix_free=None, ambiguous=False, max_records=None):
+def scalar_cases(draw, tier="quick", *, prefix_free=None, ambiguous=False, max_records=None, prefix_no_delimiter=True):
     """spec + CURIE-ish strings + URI-ish strings, for the scalar-API properties (C03, C06, C07)."""
     big = tier == "thorough"
     d = draw(delimiters())
     pf = draw(st.booleans()) if prefix_free is None else prefix_free
     mr = max_records or (8 if big else 5)
-    recs = draw(record_sets(delimiter=d, max_records=mr, max_syn=5 if big else 4, prefix_free=pf, allow_empty_uri=not pf))
+    recs = draw(record_sets(delimiter=d, max_records=mr, max_syn=5 if big else 4, prefix_free=pf, allow_empty_uri=not pf, prefix_no_delimiter=prefix_no_delimiter))
     if ambiguous and recs:
         # make strings that are CURIEs and URIs at once likely: a URI prefix equal to prefix+delimiter(+text),
         # and a CURIE prefix equal to the scheme of a URI prefix
